@@ -201,10 +201,8 @@ Definition rsq_new (bsize : N) (vs : list N) : outcome rsq :=
   let! q := qvb_push_all qvb_new (map (fun v => v mod 256) vs) in
   rsq_from_qv bsize q.
 
-(* Default::default(): derived, every field empty *)
-Definition rsq_default : rsq :=
-  {| rsq_qv := qvb_new; rsq_rs := {| rs_superblocks := []; rs_samples := [[];[];[];[]] |};
-     rsq_occs_smaller := [0;0;0;0;0] |}.
+(* Default::default() = Self::from(QVector::default()) *)
+Definition rsq_default (bsize : N) : outcome rsq := rsq_from_qv bsize qvb_new.
 
 Definition rsq_len (r : rsq) : N := qv_len (rsq_qv r).
 Definition rsq_is_empty (r : rsq) : bool := qv_len (rsq_qv r) =? 0.
@@ -243,7 +241,7 @@ Definition rsq_rank_unchecked (bsize : N) (r : rsq) (symbol i : N) : outcome N :
   Val (a + b).
 
 Definition rsq_rank (bsize : N) (r : rsq) (symbol i : N) : outcome (option N) :=
-  if rsq_len r <? i then Val None
+  if (3 <? symbol) || (rsq_len r <? i) then Val None
   else let! v := rsq_rank_unchecked bsize r symbol i in Val (Some v).
 
 Definition rsq_occs_unchecked (r : rsq) (symbol : N) : outcome N :=
@@ -316,8 +314,7 @@ Definition rsq_select (bsize : N) (r : rsq) (symbol i : N) : outcome (option N) 
 
 Definition rsq_select_unchecked (bsize : N) (r : rsq) (symbol i : N) : outcome N :=
   let! _ := odebug_assert (symbol <=? 3) in
-  let! _ := odebug_assert (0 <? i) in
   let! o := rsq_occs r symbol in
-  let! _ := odebug_assert (match o with Some oc => oc <=? i | None => true end) in
+  let! _ := odebug_assert (match o with Some oc => i <? oc | None => false end) in
   let! s := rsq_select bsize r symbol i in
   ounwrap s.
